@@ -206,9 +206,24 @@ def interp_expected(m, x):
             if d < Fraction(1, 10 ** 6):
                 return None
             l = [Fraction(v) for v in m.vars[k]]; r = [Fraction(v) for v in m.vars[k + 1]]
-            t = (xf - xs[k]) / (xs[k + 1] - xs[k])
-            return [(a + (b - a) * t, Fraction(1, 10 ** 13) * max(1, abs(a), abs(b))) for a, b in zip(l, r)]
+            dx = xs[k + 1] - xs[k]; hh = xf - xs[k]
+            t = hh / dx
+            out = []
+            for a, b in zip(l, r):
+                # C19 promises EXACT f64 results on integer data over dyadic grids: when the difference, the slope (b-a)/dx, its
+                # product with x - x_k and the final sum are all binary64 numbers, every operation of left + (right-left)/dx * (x-x_k)
+                # is exact in IEEE arithmetic, so the value must be the interpolant itself (a slope formed as (b-a) * (1/dx) is not:
+                # seeded mutation C19-11); otherwise the rounding allowance applies
+                s = (b - a) / dx
+                exact = all(_is_f64(v) for v in (b - a, dx, hh, s, s * hh, a + s * hh))
+                out.append((a + (b - a) * t, Fraction(0) if exact else Fraction(1, 10 ** 13) * max(1, abs(a), abs(b))))
+            return out
     return None
+
+def _is_f64(fr):
+    """is the rational fr a binary64 number (normal range)?"""
+    try: return fr == 0 or (Fraction(float(fr)) == fr and abs(fr) >= Fraction(1, 2 ** 1000))
+    except OverflowError: return False
 
 def quad_tol(n_cells, sum_abs):
     """rounding allowance of the f64 evaluation of a sum of n cell contributions: each contribution is formed with at most
